@@ -172,7 +172,7 @@ def proofs(prop, thorough):
             res["failures"].append(f"audit: no axiom report for {n}")
             continue
         ax = seen[full[0]]
-        bad = [a for a in ax if a not in ALLOWED_AXIOMS and not (allowed_native and a.startswith(NATIVE_AXIOM_PREFIXES))]
+        bad = [a for a in ax if a not in ALLOWED_AXIOMS and not (allowed_native and (a.startswith(NATIVE_AXIOM_PREFIXES) or "._native.bv_decide.ax_" in a))]
         res["theorems"].append(dict(name=n, axioms=ax))
         if bad or "sorryAx" in ax:
             res["ok"] = False
